@@ -87,31 +87,6 @@ Theorem C10_rset_index_partial : forall d rs line n flg idx g c, rset_find_d d r
 Proof. exact rset_index. Qed.
 Print Assumptions C10_rset_index_partial.
 
-(* The missing half of C10_rset_index -- "re_groupcount p is the number of groups the parser makes of p, so
-   grp[i] is the number of alternative i's wrapper group" -- is FALSE for the faithful model of the unchanged
-   rset.c (finding, replayed on the real code; proposed repair fixes/C10-groupcount-bracket.patch):
-   re_groupcount scans a bracket expression differently from regex.c's brk_len.
-   (a) `[a[*](x)`: accepted, consumed completely, 2 wrapper groups + 1 group, re_groupcount = 0: on "ax" the
-       engine sets group 3 = 1..2 but rset_find hands back group 1 as -1/-1;
-   (b) the set { `[[:space:]()]+`, `y` }: re_groupcount = 1 for a pattern without group, grp[1] = 4 although
-       the wrapper of `y` is group 3: on "y" the set answers -1 although `y` alone matches. *)
-Theorem C10_rset_index_refuted :
-  (exists p t rs, parse_pat (rset_pattern [Some p]) = Ok (Some t, []) /\ ngroups t = 3 /\ re_groupcount p = 0 /\
-     rset_make [Some p] 0%Z = Ok (Some rs) /\
-     fst (rset_find_d 300 rs [97; 120; 10]%N 2 0%Z) = Ok (0%Z, [(0%Z, 2%Z); ((-1)%Z, (-1)%Z)]) /\
-     fst (regexec_d 300 (rs_prog rs) 0%Z [97; 120; 10]%N 4 REG_NEWLINE) = Ok (Some [(0%Z, 2%Z); (0%Z, 2%Z); (0%Z, 2%Z); (1%Z, 2%Z)])) /\
-  (exists p0 p1 t rs rs1, parse_pat (rset_pattern [Some p0; Some p1]) = Ok (Some t, []) /\ ngroups t = 3 /\ re_groupcount p0 = 1 /\
-     rset_make [Some p0; Some p1] 0%Z = Ok (Some rs) /\ rs_grp rs = [2%Z; 4%Z; 5%Z] /\
-     rset_make [Some p1] 0%Z = Ok (Some rs1) /\
-     fst (rset_find_d 300 rs1 [121; 10]%N 1 0%Z) = Ok (0%Z, [(0%Z, 1%Z)]) /\
-     fst (rset_find_d 300 rs [121; 10]%N 1 0%Z) = Ok ((-1)%Z, [])).
-Proof.
-  split.
-  - destruct under_count as (t & rs & H). exists p_under, t, rs. exact H.
-  - destruct over_count as (t & rs & rs1 & H). exists p_over, p_y, t, rs, rs1. exact H.
-Qed.
-Print Assumptions C10_rset_index_refuted.
-
 (* the documented backtracking depth is a constant of the specification; the engine's limit is generated *)
 Theorem C10_documented_depth : (256 <= NDEPT)%Z.
 Proof. exact documented_depth. Qed.
